@@ -22,6 +22,13 @@ var (
 
 // handleInjection processes a pre-populated VAA injected locally.
 func (p *Processor) handleInjection(ctx context.Context, v *vaa.VAA) {
+	if p.gs == nil {
+		// Without a guardian set the aggregation entry would carry no set snapshot
+		// and the next cleanup run would dereference it.
+		p.logger.Warn("dropping injected VAA since we haven't initialized our guardian set yet")
+		return
+	}
+
 	// Generate digest of the unsigned VAA.
 	digest := v.SigningMsg()
 
